@@ -13,7 +13,7 @@
    NOT modelled: commands and output processors, hardware requirements, port classes with parameters, CWL
    entities; persistent ids of the builder copy (oracle only). *)
 From Coq Require Import List NArith ZArith.
-From SF Require Import Base.Str DbCache.Model DbCache.Proofs Persist.Model Persist.Proofs Persist.WfModel Persist.WfProofs Persist.CfgModel Persist.CfgProofs.
+From SF Require Import Base.Str DbCache.Model DbCache.Proofs Persist.Model Persist.Proofs Persist.WfModel Persist.WfProofs Persist.CfgModel Persist.CfgProofs Persist.TreeModel Persist.TreeProofs.
 Import ListNotations.
 Local Open Scope string_scope. Local Open Scope list_scope.
 
@@ -44,6 +44,16 @@ Theorem C08_port_under_two_names_refuted :
   exists d', save_wf twice_witness (mkwdb [] [] [] [] (mkcdb [] [] [])) = Some (1, d') /\
              load_wf d' 1 <> Some twice_witness /\ load_wf d' 1 <> None.
 Proof. exact twice_witness_loses. Qed.
+
+(* a command with its command token processors, a command output processor, a token processor: every tree of
+   {"type", "params"} nodes with one optional child, a list or a dict of children, of any depth, is loaded back as it
+   was saved -- for the workflow it was saved for (output and token processors store the workflow id in every node)
+   and for no other. *)
+Theorem C08_command_roundtrip : forall w t, load_tree w (save_tree w t) = Some t.
+Proof. exact tree_roundtrip. Qed.
+Theorem C08_processor_other_workflow_rejected : forall a b c ps ks subs,
+  a <> b -> load_tree (Some b) (save_tree (Some a) (PNode c ps ks subs)) = None.
+Proof. exact tree_other_workflow. Qed.
 
 (* deployment, target (incl. LocalTarget) and filter configurations, and the binding of a ScheduleStep (its targets
    and filters): load(save x) = x on any prior tables, and later saves never change what stored ids load to.
@@ -110,7 +120,8 @@ Example C08_workflow_example :
                  mkstep "/g" (KGather 2) 0%Z [("__size__", "p1"); ("a", "p2")] [("r", "p0")];
                  mkstep "/c" (KComb true c) 2%Z [("a", "p0"); ("b", "p1")] [("a", "p2")];
                  mkstep "/t" (KPlain "pkg.MyTransformer") 0%Z [("x", "p2")] [("y", "p1")];
-                 mkstep "/x" (KExecute [("y", "conn")]) 1%Z [("__job__", "p1"); ("x", "p0")] [("y", "p2")];
+                 mkstep "/x" (KExecute [("y", "conn")] ["y"] [PNode "Map" [("name", JStr "y")] [] [PNode "Default" [("name", JStr "y")] [] []]]
+                                        (Some (PNode "Cmd" [("base_command", JArr [JStr "echo"])] [] [PNode "Tok" [("name", JStr "a")] [] []]))) 1%Z [("__job__", "p1"); ("x", "p0")] [("y", "p2")];
                  mkstep "/tr" (KJobIn "pkg.MyTransfer") 0%Z [("__job__", "p1")] [("f", "p0")];
                  mkstep "/d" (KDeploy dc) 0%Z [] [("dock", "p2")];
                  mkstep "/sch" (KSchedule (mkbinding [PTarget dc 2 (Some "svc") "/w"; PLocal "/tmp"] [mkfilter "f" "shuffle" (JObj [])])
@@ -130,6 +141,8 @@ Proof. split; [reflexivity | exact shared_witness_deep_ok]. Qed.
 Print Assumptions C08_workflow_roundtrip_partial.
 Print Assumptions C08_builder_copy_partial.
 Print Assumptions C08_port_under_two_names_refuted.
+Print Assumptions C08_command_roundtrip.
+Print Assumptions C08_processor_other_workflow_rejected.
 Print Assumptions C08_config_roundtrip.
 Print Assumptions C08_config_saves_keep_stored.
 Print Assumptions C08_token_roundtrip_partial.
